@@ -173,6 +173,34 @@ def construction_paths_family(out, prop):
                 continue
             if (b.width, b.height, b.area) != (2, 3, 6):
                 out.violation(f'{prop}:hook-assigning-field', f'{label}: got {b!r}, expected Box(width=2, height=3, area=6)', {'path': label})
+        # fields supplied under another input name (alias, in_names, rename, class-level style): the record holds FIELD names
+        class Job(pane.PaneBase, in_rename=('snake', 'camel')):
+            name: str
+            max_retries: int = pane.field(default=3, aliases=['retries'])
+            tags: t.List[str] = pane.field(default_factory=list, in_names=['labels'])
+            note: str = pane.field(default='', rename='remark')
+            run_count: int = 0
+        named = {
+            'alias': ({'name': 'b', 'retries': 5}, {'name', 'max_retries'}), 'in_names': ({'name': 'b', 'labels': ['x']}, {'name', 'tags'}),
+            'field rename': ({'name': 'b', 'remark': 'r'}, {'name', 'note'}), 'class-level camel': ({'name': 'b', 'runCount': 2}, {'name', 'run_count'}),
+            'class-level snake': ({'name': 'b', 'run_count': 2}, {'name', 'run_count'}), 'camel of the alias target': ({'name': 'b', 'maxRetries': 4}, {'name', 'max_retries'}),
+        }
+        for label, (data, want) in named.items():
+            for how, mk in (('mapping data', lambda: pane.from_data(data, Job)), ('nested mapping data', lambda: pane.from_data([data], t.List[Job])[0]),
+                            ('union member', lambda: pane.from_data(data, t.Union[int, Job]))):
+                n += 1
+                try:
+                    j = mk()
+                    rec = set(j.__pane_set__)
+                    so = j.dict(set_only=True)
+                    again = j.__replace__()
+                    cp = __import__('copy').copy(j)
+                except Exception as e:
+                    out.violation(f'{prop}:input-names:{type(e).__name__}', f'{label} ({how}): {data!r} raised {type(e).__name__}: {_msg(e)}', {'path': how, 'case': label})
+                    continue
+                if rec != want or set(so) != want or not (again == j) or set(again.__pane_set__) != want or set(cp.__pane_set__) != want:
+                    out.violation(f'{prop}:input-names:set-record', f'{label} ({how}): from {data!r} the set-field record is {sorted(rec)}, dict(set_only=True) = {so!r}, '
+                                  f'replace() = {again!r} / {sorted(again.__pane_set__)}; the supplied FIELDS are {sorted(want)} and {j!r} must come back', {'path': how, 'case': label})
         # a hook that reads the set-field record: it sees the same record on every path (what was supplied, nothing else)
         seen = []
 
@@ -332,4 +360,191 @@ def scalar_subclass_family(out, prop):
                         continue
                     out.violation(f'{prop}:scalar-subclass:cross-kind-accepted', f'{label}: from_data({wrap(v)!r}, {ty!r}) = {r!r}: {base.__name__} does not read a '
                                   f'{type(v).__name__}, so {sub.__name__} must not either', {'target': sub.__name__, 'context': label, 'value': repr(v)})
+    return n
+
+
+def noninit_roundtrip_family(out, prop):
+    """Dataclasses with a field kept out of the constructor (init=False, default or factory, first / last / between positional
+    fields), both output layouts: the serialised form is read back to an equal instance, convert(x, type(x)) returns an equal
+    instance, and an instance is accepted as a field value by the constructor of an enclosing dataclass and inside containers."""
+    import pane
+    from pane.errors import ConvertError
+    n = 0
+    for out_fmt in ('struct', 'tuple'):
+        for pos in ('first', 'last', 'middle'):
+            ann, ns = {}, {}
+            names = ['x', 'y']
+            names.insert({'first': 0, 'last': 2, 'middle': 1}[pos], 'n')
+            for nm in names:
+                if nm == 'n':
+                    ann[nm] = t.List[int]
+                    ns[nm] = pane.field(init=False, default_factory=list)
+                elif nm == 'x':
+                    ann[nm] = int
+                else:
+                    ann[nm] = str
+                    ns[nm] = 'a'
+            ns['__annotations__'] = ann
+            cls = type('Ni' + out_fmt.title() + pos.title(), (pane.PaneBase,), ns, out_format=out_fmt, in_format=('tuple', 'struct'))
+
+            class Holder(pane.PaneBase):
+                item: cls
+                items: t.List[cls] = pane.field(default_factory=list)
+            with warnings.catch_warnings():
+                warnings.simplefilter('ignore')
+                for label, call in (
+                        ('from_data(into_data(x))', lambda x: pane.from_data(pane.into_data(x, cls), cls)), ('convert(x, type(x))', lambda x: pane.convert(x, cls)),
+                        ('convert([x], List)', lambda x: pane.convert([x], t.List[cls])[0]), ('Holder(item=x).item', lambda x: Holder(item=x, items=[x]).item),
+                        ('Holder round trip', lambda x: Holder.from_data(Holder(x, [x]).into_data()).items[0])):
+                    for x in (cls(1), cls(2, 'b'), cls(x=3)):
+                        n += 1
+                        try:
+                            y = call(x)
+                        except Exception as e:
+                            out.violation(f'{prop}:init-false-field:{type(e).__name__}', f'{label} for {x!r} (out_format={out_fmt!r}, field n has init=False) raised '
+                                          f'{type(e).__name__}: {_msg(e)}; serialised form {pane.into_data(x, cls)!r}', {'call': label, 'out_format': out_fmt, 'position': pos})
+                            break
+                        if not (y == x) or type(y) is not type(x):
+                            out.violation(f'{prop}:init-false-field', f'{label} for {x!r} (out_format={out_fmt!r}) gave {y!r}', {'call': label, 'out_format': out_fmt, 'position': pos})
+                            break
+    return n
+
+
+def generic_parameter_twins(out, prop):
+    """One generic dataclass parameterised, in one process, with two type expressions that `==` identifies but that differ in the
+    order of union members or literal values -- at the top of the parameter and nested inside containers that typing does not
+    intern (list[...], dict[...], tuple[...]) -- in both creation orders.  Each specialisation behaves as if it were the only
+    one: the left-most accepting member of ITS union wins, its error message lists ITS literal values in ITS order.  Also:
+    parameters that are not plain classes (Callable with a parameter list, empty tuple, Ellipsis forms) can be used at all."""
+    import pane
+    from pane.errors import ConvertError
+    T = t.TypeVar('T')
+    n = 0
+    IF, FI = t.Union[int, float], t.Union[float, int]
+    pairs = [
+        ('Union at the top', IF, FI, 1, (1, 1.0), None),
+        ('Union inside list[...]', list[IF], list[FI], [1], ([1], [1.0]), None),
+        ('Union inside dict[str, ...]', dict[str, IF], dict[str, FI], {'k': 1}, ({'k': 1}, {'k': 1.0}), None),
+        ('Union inside tuple[..., str]', tuple[IF, str], tuple[FI, str], [1, 'a'], ((1, 'a'), (1.0, 'a')), None),
+        ('Union two levels down', list[dict[str, IF]], list[dict[str, FI]], [{'k': 1}], ([{'k': 1}], [{'k': 1.0}]), None),
+        # (typing.Optional[...] / typing.Union[...] are interned by typing BY EQUALITY: only the PEP 604 spelling gives two objects)
+        ('X | None of a list of unions', list[t.Union[bool, int]] | None, list[t.Union[int, bool]] | None, [True], ([True], [1]), None),
+        ('Literal values', t.Literal[1, 2], t.Literal[2, 1], 3, None, ('1 or 2', '2 or 1')),
+        ('Literal values inside list[...]', list[t.Literal['a', 'b']], list[t.Literal['b', 'a']], ['c'], None, ("'a' or 'b'", "'b' or 'a'")),
+    ]
+    with warnings.catch_warnings():
+        warnings.simplefilter('ignore')
+        for label, p1, p2, probe, wants, texts in pairs:
+            for order in ((0, 1), (1, 0)):
+                class G(pane.PaneBase, t.Generic[T]):
+                    u: T
+                params = (p1, p2)
+                made = {}
+                for i in order:
+                    n += 1
+                    try:
+                        made[i] = G[params[i]]
+                    except Exception as e:
+                        out.violation(f'{prop}:generic-parameter:{type(e).__name__}', f'{label}: G[{params[i]!r}] raised {type(e).__name__}: {_msg(e)}', {'case': label})
+                for i, cls in made.items():
+                    n += 1
+                    when = 'first' if i == order[0] else f'after G[{params[order[0]]!r}]'
+                    try:
+                        r = cls.from_data({'u': probe}).u
+                        if wants is None:
+                            out.violation(f'{prop}:generic-parameter-twins', f'{label}: G[{params[i]!r}] accepted {probe!r}', {'case': label})
+                        elif repr(r) != repr(wants[i]):
+                            out.violation(f'{prop}:generic-parameter-twins', f'{label}: G[{params[i]!r}] (created {when}) converts u={probe!r} to {r!r}; on its own it gives '
+                                          f'{wants[i]!r} (left-most accepting member)', {'case': label, 'created': when})
+                    except ConvertError as e:
+                        msg = _msg(e)
+                        if wants is not None:
+                            out.violation(f'{prop}:generic-parameter-twins', f'{label}: G[{params[i]!r}] (created {when}) rejected {probe!r}: {msg}', {'case': label})
+                        elif texts[i] not in str(e):
+                            out.violation(f'{prop}:generic-parameter-twins', f'{label}: the message of G[{params[i]!r}] (created {when}) for u={probe!r} does not list the values as '
+                                          f'{texts[i]!r}: {str(e)[-120:]!r}', {'case': label, 'created': when})
+                    except Exception as e:
+                        out.violation(f'{prop}:generic-parameter:{type(e).__name__}', f'{label}: G[{params[i]!r}].from_data raised {type(e).__name__}: {_msg(e)}', {'case': label})
+
+        class H(pane.PaneBase, t.Generic[T]):
+            u: t.Optional[T] = None
+        import collections.abc
+        for label, param in (('Callable[[int], str]', t.Callable[[int], str]), ('Callable[..., int]', t.Callable[..., int]), ('collections.abc.Callable[[int, str], None]', collections.abc.Callable[[int, str], None]),
+                             ('Tuple[()]', t.Tuple[()]), ('Tuple[int, ...]', t.Tuple[int, ...]), ('Annotated[int, "meta"]', t.Annotated[int, 'meta'])):
+            n += 1
+            try:
+                a, b = H[param], H[param]
+                a()
+            except Exception as e:
+                out.violation(f'{prop}:generic-parameter:{type(e).__name__}', f'H[{label}] raised {type(e).__name__}: {_msg(e)}', {'case': label})
+    return n
+
+
+def positional_bounds_family(out, prop):
+    """The sequence (tuple) layout: a sequence of length L is accepted exactly when  required <= L <= positional,  where
+    `positional` counts the constructor's positional fields and `required` those of them without ANY default (a plain default and a
+    default factory both make a field optional); elements bind in declaration order, the rest take their defaults (a fresh product
+    for a factory).  Classes mixing required / default / factory / init=False / keyword-only fields."""
+    import pane
+    from pane.errors import ConvertError
+    n = 0
+    R, D, F, N, K = 'required', 'default', 'factory', 'noninit', 'kwonly'
+    shapes = [(R,), (R, D), (R, F), (R, D, F), (R, F, D), (R, R, F), (F,), (D, F), (F, F), (R, N, F), (N, R, D), (R, F, K), (R, D, K, K), (R, R), (R, N, D, F, K)]
+    for shape in shapes:
+        ann, ns = {}, {}
+        pos = []
+        kw_started = False
+        for i, kind in enumerate(shape):
+            nm = f'f{i}'
+            if kind == K and not kw_started:
+                ann['_kw'] = pane.KW_ONLY
+                kw_started = True
+            if kind == F or (kind == N and i % 2):
+                ann[nm] = t.List[int]
+            else:
+                ann[nm] = int
+            if kind == D or kind == K:
+                ns[nm] = 10 + i
+            elif kind == F:
+                ns[nm] = pane.field(default_factory=list)
+            elif kind == N:
+                ns[nm] = pane.field(init=False, default_factory=list) if i % 2 else pane.field(init=False, default=-1)
+            if kind in (R, D, F):
+                pos.append((nm, kind, i))
+        ns['__annotations__'] = ann
+        try:
+            cls = type('Pb' + ''.join(k[0].upper() for k in shape), (pane.PaneBase,), ns, in_format=('tuple', 'struct'))
+        except TypeError:
+            continue
+        lo = sum(1 for _, k, _ in pos if k == R)
+        hi = len(pos)
+        with warnings.catch_warnings():
+            warnings.simplefilter('ignore')
+            for L in range(0, hi + 2):
+                for mk in (list, tuple):
+                    n += 1
+                    data = mk([[7] if k == F else 1 + j for j, (_, k, _) in enumerate(pos[:L])] + [5] * max(0, L - hi))
+                    want = lo <= L <= hi
+                    try:
+                        x = cls.from_data(data)
+                        got = True
+                    except ConvertError as e:
+                        got, err = False, _msg(e)
+                    except Exception as e:
+                        out.violation(f'{prop}:positional-bounds:{type(e).__name__}', f'fields {shape}: from_data({data!r}) raised {type(e).__name__}: {_msg(e)}', {'fields': list(shape), 'data': repr(data)})
+                        continue
+                    if got != want:
+                        out.violation(f'{prop}:positional-bounds', f'fields {shape}: a sequence of length {L}, {data!r}, is {"accepted" if got else "rejected (" + err + ")"}; '
+                                      f'{lo} positional field(s) have no default and {hi} are positional, so lengths {lo}..{hi} are the accepted ones', {'fields': list(shape), 'data': repr(data)})
+                        continue
+                    if got:
+                        for j, (nm, k, i) in enumerate(pos):
+                            wantv = data[j] if j < L else ([] if k == F else 10 + i)
+                            if getattr(x, nm) != (list(wantv) if isinstance(wantv, list) else wantv):
+                                out.violation(f'{prop}:positional-bounds:binding', f'fields {shape}: from_data({data!r}) gave {x!r}: field {nm} should hold {wantv!r}', {'fields': list(shape), 'data': repr(data)})
+                                break
+                        y = cls.from_data(data)
+                        for nm, k, i in pos:
+                            if k == F and getattr(x, nm) is getattr(y, nm):
+                                out.violation(f'{prop}:positional-bounds:shared-factory-product', f'fields {shape}: two conversions of {data!r} share the list in field {nm}', {'fields': list(shape)})
     return n
